@@ -62,6 +62,7 @@ func (r *Result) Add(o *Obligation) *Obligation {
 	if r.seen == nil {
 		r.seen = map[string]int{}
 	}
+	o.Rule = r.qualify(o.Rule)
 	base := o.Key()
 	r.seen[base]++
 	if n := r.seen[base]; n > 1 {
@@ -108,7 +109,15 @@ func (r *Result) Break(format string, args ...interface{}) {
 }
 
 // Floor demands at least n obligations of the rule (vacuity guard).
-func (r *Result) Floor(rule string, n int) { r.floors[rule] = n }
+func (r *Result) Floor(rule string, n int) { r.floors[r.qualify(rule)] = n }
+
+// qualify prefixes rules borrowed from another property's rule set (e.g. C02.N3 run as part of C05 becomes C05/C02.N3).
+func (r *Result) qualify(rule string) string {
+	if strings.HasPrefix(rule, r.Property+".") || strings.HasPrefix(rule, r.Property+"/") {
+		return rule
+	}
+	return r.Property + "/" + rule
+}
 
 // Finding is one entry of known_findings.json.
 type Finding struct {
@@ -172,9 +181,14 @@ func (r *Result) Finish(verifDir, tier string, seed int64, start time.Time, find
 
 	known := map[string]Finding{}
 	for _, f := range findings {
-		if f.Property == r.Property && f.Status == "known" {
+		if f.Status != "known" {
+			continue
+		}
+		if f.Property == r.Property {
 			known[f.Key] = f
 		}
+		// a finding recorded for property Q also covers the same obligation when Q's rule set runs borrowed under this property
+		known[r.Property+"/"+f.Key] = f
 	}
 	var viol, knownHit []*Obligation
 	nDis, nExc, nAss, nObs := 0, 0, 0, 0
